@@ -99,6 +99,9 @@ def _helper_read_frame(lit: LineIterator) -> tuple:
         resnames.append(line[5:10].split()[-1])
         attypes.append(line[10:15].split()[-1])
         words = line[20:].split()
+        if len(words) != 6:
+            # Wide values make the fixed-width fields (3 x %8.3f, 3 x %8.4f) touch: cut them by column.
+            words = [line[20 + 8 * j : 28 + 8 * j] for j in range(6)]
         pos[i, 0] = float(words[0])
         pos[i, 1] = float(words[1])
         pos[i, 2] = float(words[2])
